@@ -4,5 +4,5 @@
 import sys
 sys.path[:0] = ['/repo' + "/pulser-core", '/repo' + "/pulser-simulation", "/verif"]
 from symx.replay import replay
-sys.exit(replay(check='checks.c02', kernel='step', shape={'own': {'clock': 4, 'local': False, 'slots': [], 'mod': True, 'pj': 'custom', 'maxd': True, 'targets_a': ['q0'], 'targets_b': ['q1']}, 'op': ['add_delay'], 'maxseq': True, 'nbarriers': 2},
-                assignment={'max_sequence_duration': 68, 'own.min_duration': 65, 'own.max_duration': 65, 'own.tr': 1, 'own.pjt': 0, 'new.delay': 65}, label='c02:inv_max_len'))
+sys.exit(replay(check='checks.c02', kernel='step', shape={'own': {'clock': 4, 'local': False, 'slots': [], 'mod': True, 'pj': 'custom', 'maxd': True, 'targets_a': ['q0'], 'targets_b': ['q1']}, 'op': ['add_delay'], 'maxseq': False, 'nbarriers': 1},
+                assignment={'own.min_duration': 5, 'own.max_duration': 5, 'own.tr': 1, 'own.pjt': 0, 'new.delay': 5}, label='c02:inv_max_len'))
